@@ -5,6 +5,8 @@ package app
 import (
 	"errors"
 	"io"
+	"os"
+	"time"
 	"sort"
 	"strconv"
 	"strings"
@@ -352,3 +354,15 @@ func vGet(m map[string]int, k string) int {
 	defer vW.mu.Unlock()
 	return m[k]
 }
+
+// vDirInfo: what os.Stat reports for an existing directory (stub for working directories)
+type vDirInfo struct{ name string }
+
+func (d vDirInfo) Name() string       { return d.name }
+func (d vDirInfo) Size() int64        { return 0 }
+func (d vDirInfo) Mode() os.FileMode  { return os.ModeDir | 0o755 }
+func (d vDirInfo) ModTime() time.Time { return time.Time{} }
+func (d vDirInfo) IsDir() bool        { return true }
+func (d vDirInfo) Sys() any           { return nil }
+
+func vStatDir(name string) (os.FileInfo, error) { return vDirInfo{name}, nil }
